@@ -9,9 +9,12 @@ Deductive part (pyvc, real ASTs of /repo/Lib/ufo2ft/instantiator.py):
   * collect_glyph_masters: layers containing the glyph, default required, empty-glyph rule (order after filtering: run time only)
   * lemmas: the abstract swap (conjugation by the transposition) is an involution on names, kerning keys, kerning, member lists, glyph content
 
-What pyvc cannot reach (see notes/C19.md, notes/C19.requests.md) is checked by the bounded observer in
-vcheck/hooks/c19.py: swap_glyph_names against the abstract swap, generate_instance (glyph set, copies, frame, history
-independence, master reproduction, variation-model blend, linear blend on a two-master axis).
+Second wave: contracts/c19b.py (Instantiator.generate_glyph_instance with the glyph-model cache invariant, replace_source_layers, the
+properties) and contracts/c19c.py (swap_glyph_names: outlines / width / anchors exchanged, kerning and groups conjugated).
+
+What is still out of reach (see notes/C19.md, notes/C19.requests.md) is checked by the bounded observer in vcheck/hooks/c19.py:
+generate_instance as a whole (glyph set, copies, frame, history independence, master reproduction, variation-model blend, linear blend on a
+two-master axis) and the component re-mapping of swap_glyph_names.
 """
 import z3
 
